@@ -157,7 +157,7 @@ Record tx := { tx_id : N; tx_module : N; tx_module_ok : bool;
 
 Inductive xres := XInvalid | XFail | XOk.
 
-Definition std_name : N := 0.
+Definition std_name : N := 100.   (* blockchain.EventNameDefault *)
 (* StandardTransactionEvent{Success}.Encode(): field 1, varint bool *)
 Definition std_data (success : bool) : list N := [8; if success then 1 else 0].
 Definition std_req (t : tx) (success : bool) : ev_req :=
